@@ -1091,6 +1091,8 @@ def make_endpoint(world: World, node: str, worker: Optional[int] = None, gen: in
         mws.insert(min(cfg["mw_bare"], len(mws)), TaskiqMiddleware())
     if worker is None and cfg.get("client_label_adder"):
         mws.append(_LabelAdder(world))
+    if worker is None and cfg.get("client_stamper"):
+        mws.append(_Stamper(world, cfg["client_stamper"].get("us", 0)))
     split = cfg.get("mw_split")
     if split and len(mws) >= 2:
         # the stack is built in two steps: with_middlewares / add_middlewares in either combination (both append)
@@ -1103,6 +1105,25 @@ def make_endpoint(world: World, node: str, worker: Optional[int] = None, gen: in
         br.add_middlewares(*mws)
     register_tasks(world, br, worker, late=False, defer_late=defer_late)
     return br
+
+
+class _Stamper(TaskiqMiddleware):
+    """A client-side pre_send middleware that writes a per-message label (the message's own task id) into the outgoing message in
+    place and may suspend afterwards (an idempotency key / trace id stamped by a middleware)."""
+
+    def __init__(self, world: "World", us: int) -> None:
+        super().__init__()
+        self.world = world
+        self.us = us
+
+    async def pre_send(self, message: Any) -> Any:
+        message.labels["stamp"] = message.task_id
+        self.world.fired("message_stamped_in_place")
+        if self.us:
+            await asyncio.sleep(self.us / 1e6)
+        else:
+            await asyncio.sleep(0)
+        return message
 
 
 class _LabelAdder(TaskiqMiddleware):
